@@ -88,6 +88,7 @@ def tx_parties(op):
     return t[1], t[0]
 
 
+CONTRACT_ADDRS = {'hub', 'reward', 'disp', 'reg', 'bsei', 'stsei', 'swap', 'oracle', 'airdrop'}
 ADDRS_ORDER = ['hub', 'reward', 'disp', 'reg', 'bsei', 'stsei', 'swap', 'oracle', 'airdrop', 'owner', 'updater', 'keeper',
                'nobody', 'user0', 'user1', 'user2', 'user3', 'user4', 'user5', 'user6', 'user7']
 DENOMS_ORDER = ['uAtom', 'ujunk', 'usei', 'uusd']
@@ -270,7 +271,14 @@ def compare_and_monitor(opsf, robs, mobs, pid, spec, M, known, probes=None, run_
             # transaction on the world after them; a failed transaction moved nothing
             coins, plain = split_funds(op)
             steps = []
-            if coins is not None and okflag and prev is not None:
+            if coins is not None and okflag and tx_parties(plain)[0] in CONTRACT_ADDRS:
+                # a contract address "signing" a transaction that carries coins spends that contract's own
+                # balance - something no contract of the protocol can do on a chain (contracts hold no keys).
+                # Whatever the verb, the rest of the history is not judged by the monitors that quantify over
+                # transactions of users / owner / updater (`guarded`, monitors2.py); no synthetic transfer step
+                hstate['tainted'] = True
+                steps.append((prev, plain, okflag, rt, cur))
+            elif coins is not None and okflag and prev is not None:
                 sender_, target_ = tx_parties(plain)
                 st_ = prev
                 for dn_, am_ in coins:
@@ -281,13 +289,15 @@ def compare_and_monitor(opsf, robs, mobs, pid, spec, M, known, probes=None, run_
             elif coins is not None and prev is not None:
                 # failed: if the sender cannot pay the attached coins the bank explains the failure and the
                 # contracts were never called (nothing to judge); otherwise the plain transaction failed on
-                # the world after the transfer (and everything was rolled back)
+                # the world after the transfer (and everything was rolled back). A contract address as
+                # sender is not judged either: the intermediate world in which a contract has given away its
+                # own coins is not one the properties speak about
                 sender_, target_ = tx_parties(plain)
                 need = {}
                 for dn_, am_ in coins:
                     need[dn_] = need.get(dn_, 0) + am_
                 bank_ = {(t_[0], t_[1]): int(t_[2]) for t_ in prev.all('bank') if len(t_) == 3}
-                if plain.startswith('bond') or any(bank_.get((sender_, dn_), 0) < am_ for dn_, am_ in need.items()):
+                if sender_ in CONTRACT_ADDRS or plain.startswith('bond') or any(bank_.get((sender_, dn_), 0) < am_ for dn_, am_ in need.items()):
                     steps = []
                 else:
                     st_ = prev
